@@ -118,6 +118,18 @@ def run(ctx):
     if not r.ok:
         ctx.machinery(f"TLC MCRSync: {r.violated} {r.error[:600]}")
     ctx.note(f"TLC MCRSync: {r.generated // 2} (source, prior target, delete, cwd) cases: target = source, limitations exact, minimal; {r.wall:.1f}s")
+    # the protocol message by message (structure broadcast, serve loop, 2 targets that may fail at any point) and its three mutants
+    pr = tlc.run("MCRSyncProto", "RP.cfg", scratch=ctx.scratch, timeout=900)
+    pc = tlc.run("MCRSyncProto", "RP_crash.cfg" if ctx.quick else "RP_crash_big.cfg", scratch=ctx.scratch, timeout=3000)
+    for x, nm in ((pr, "RP"), (pc, "RP_crash")):
+        if not x.ok:
+            ctx.machinery(f"TLC MCRSyncProto/{nm}: {x.violated} {x.error[:600]}")
+    ctx.note(f"TLC RSyncProto: {pr.distinct} + {pc.distinct} states (with failing targets): pairing, complete at return, callback once, inside the sender language, send() ends")
+    for cfg in ("RP_linksonce", "RP_serveone", "RP_pairlast"):
+        m = tlc.run("MCRSyncProto", cfg + ".cfg", scratch=ctx.scratch, timeout=600, parse_trace=False)
+        if not m.violated or m.violated == "error":
+            ctx.machinery(f"TLC mutant {cfg} not killed")
+        ctx.note(f"TLC mutant {cfg}: killed by {m.violated}")
     for cfg in ("MCRSync_mode", "MCRSync_link"):
         m = tlc.run("MCRSync", cfg + ".cfg", scratch=ctx.scratch, timeout=600, parse_trace=False)
         if not m.violated or m.violated == "error":
@@ -141,6 +153,9 @@ def run(ctx):
     try:
         outs = [rsync_real.run_case(gw, base, c) for c in cases]
         free = free_trees(gw, os.path.join(ctx.scratch, "free"), rng, 25 if ctx.quick else 250)
+        from real import rsync_trace
+
+        protos = [rsync_trace.run_one(gw, os.path.join(ctx.scratch, "proto"), rng) for _ in range(120 if ctx.quick else 1500)]
     finally:
         gw.exit()
         execnet.default_group.terminate(timeout=3)
@@ -157,6 +172,11 @@ def run(ctx):
             ctx.note(f"MODEL-DRIFT {vd}: {json.dumps(o)[:200]}")
             continue
         ctx.violation(f"{vd}: {json.dumps(o)[:400]}", o, key=KNOWN.get(vd))
+    pverdicts = batch.judge("RSyncProtoCases", protos, ctx.scratch)
+    for c, vd in zip(protos, pverdicts):
+        hist["proto:" + vd] = hist.get("proto:" + vd, 0) + 1
+        if vd != "ok":
+            ctx.violation(f"{vd}: targets={c['nt']} failing={c['mayfail']} err={c['err']} trace={json.dumps([[e['e'], e['t'], e['k'], e['p'], e['n']] for e in c['trace']])[:600]}", c)
     for ok, why, meta in free:
         hist[why or "ok(generated)"] = hist.get(why or "ok(generated)", 0) + 1
         if not ok:
@@ -167,9 +187,11 @@ def run(ctx):
         "rule": "the pair-complete instance of spec/RSync.tla (source entry x prior target entry x delete x cwd; entries: 24 files, 5 link kinds, absent, "
                 "3x30 directories) materialised on disk and synced by the real RSync through a real popen gateway: all kind-changing pairs + seeded sample "
                 "(quick) / all 14400 pairs (thorough); each followed by a second send() (no content, no change); plus generated trees (unicode/space names, "
-                "empty/binary/large files, nesting, 1-3 targets, modify-then-resync); verdict by TLC (spec/RSyncCases.tla); non-trivial = prior target entry "
+                "empty/binary/large files, nesting, 1-3 targets, modify-then-resync); verdict by TLC (spec/RSyncCases.tla); sender-side event traces of real 1-3 target syncs (incl. a target that fails) validated by TLC against the "
+                "sender-observable protocol language (spec/RSyncProtoAbs.tla) that spec/RSyncProto.tla is model-checked to stay inside; non-trivial = prior target entry "
                 "present and different from the source entry",
-        "samples": [outs[0], outs[len(outs) // 2]], "generated_trees": len(free), "verdict_histogram": hist, "exhaustive": not ctx.quick,
+        "samples": [outs[0], outs[len(outs) // 2]], "generated_trees": len(free), "protocol_traces": len(protos), "protocol_traces_with_failing_target": sum(1 for c in protos if c["mayfail"]),
+        "protocol_model_states": pr.distinct + pc.distinct, "verdict_histogram": hist, "exhaustive": not ctx.quick,
     })
     ctx.assumptions += ["run as root: permission-denied paths are not exercised", "timestamps of directories and of symlinks themselves are not compared",
                         "mtimes compared at one-second resolution"]
